@@ -14,6 +14,11 @@ Tie to the repository, on every run:
     are compared with THE SAME CALL executed in its own pristine process on freshly built equal arguments, (ii) every
     other pool object and (iii) every argument must be unchanged, (iv) no default-argument object or module table may
     have changed. Any difference is a failure of the property itself; it is shrunk to a minimal history;
+  * shared state at module / class level: harness/sharedstate.py (run by the translator in a brand-new interpreter) ->
+    `Gen.Alias.sharedSites`, obligations in Props/C19Y.lean; an unsafe site breaks `shared_facts_safe` and becomes a target
+    of the generic operations g_new / g_mutate / g_call / g_mcall / g_touch: directed histories per site run first, the
+    random generator uses them too, so that the failing-input search ends with a concrete history; the fork server compares
+    every module- and class-level object (and the identity of every binding) with its import-time picture after each history;
   * model correspondence: the part of each history that has a counterpart in the heap model (constructions with
     defaults / literals, container mutations, digests with varying arguments, mnemonic_from_bytes) is run through the
     native Lean model with the EXTRACTED descriptors; the aliasing / staleness / argument-change pattern per operation
@@ -29,7 +34,7 @@ import facts
 import c19ops
 
 PROP = "C19"
-MODS = ["EmbitModel.Props.C19", "EmbitModel.Props.C19Facts", "EmbitModel.Props.C19X"]
+MODS = ["EmbitModel.Props.C19", "EmbitModel.Props.C19Facts", "EmbitModel.Props.C19X", "EmbitModel.Props.C19Y"]
 ZYGOTE = os.path.join(os.path.dirname(os.path.dirname(os.path.abspath(__file__))), "c19zygote.py")
 FINDING_SITES = "D31"
 
@@ -141,6 +146,8 @@ def shrink(zyg, ops, fail, budget=80):
 # ------------------------------------------------------------------------------------------------ history generator
 
 class Gen:
+    GENERIC = []       # targets of the unsafe shared-state sites of this run (empty on a tree without such sites)
+
     def __init__(self, rng):
         self.r = rng
         self.ops = []
@@ -386,7 +393,7 @@ class Gen:
 
     # --- queries
     def q_serialize(self):
-        c = self.slots("tx", "psbt", "scope", "wit", "hd", "desc", "key", "ad", "ba", "view", "tree")
+        c = self.slots("tx", "psbt", "scope", "wit", "hd", "desc", "key", "ad", "ba", "view", "tree", "nat", "gen", "res")
         if c:
             self.add({"op": "serialize", "obj": self.r.choice(c)})
 
@@ -462,8 +469,37 @@ class Gen:
             self.add({"op": "tx_txid", "obj": self.r.choice(c)})
 
     def q_native(self):
-        self.add({"op": "native", "fn": self.r.choice(["recoverable", "recoverable", "ecdsa", "pubkey", "schnorr", "xonly", "tweak"]),
-                  "key": self.r.randrange(1, 6), "msg": self.r.randrange(1, 6)})
+        o = {"op": "native", "fn": self.r.choice(["recoverable", "recoverable", "ecdsa", "pubkey", "schnorr", "xonly", "tweak"]),
+             "key": self.r.randrange(1, 6), "msg": self.r.randrange(1, 6)}
+        if self.r.random() < 0.5:
+            # the caller keeps what the binding handed back: a later native call must not change it
+            o["dst"] = self.new("nat")
+        self.add(o)
+
+    # --- generic operations on what the unsafe shared-state sites point at (none on a tree without such sites)
+    def g_generic(self):
+        t = self.r.choice(self.GENERIC)
+        k = t["kind"].split()[0]
+        if k == ".sharedIntoAttr" and t.get("cls"):
+            have = self.slots("gen", pred=lambda i: i.get("cls") == t["cls"])
+            if have and self.r.random() < 0.5:
+                self.add({"op": "g_mutate", "obj": self.r.choice(have), "attr": t["attr"]})
+            else:
+                self.add({"op": "g_new", "cls": t["cls"], "dst": self.new("gen", cls=t["cls"])})
+        elif k == ".memoOther" and t.get("variants"):
+            have = self.slots("gen", pred=lambda i: i.get("cls") == t["cls"])
+            if have:
+                self.add({"op": "g_mcall", "obj": self.r.choice(have), "fn": t["fn"], "variant": self.r.choice(t["variants"])})
+            else:
+                self.add({"op": "g_new", "cls": t["cls"], "dst": self.new("gen", cls=t["cls"])})
+        elif t.get("fn") and t.get("variant") is not None:
+            res = self.slots("res", pred=lambda i: i.get("fn") == t["fn"])
+            calls = [(t["fn"], t["variant"])] + [tuple(x) for x in (t.get("readers") or [])]
+            if res and self.r.random() < 0.35:
+                self.add({"op": "g_touch", "obj": self.r.choice(res)})
+            else:
+                fn, v = self.r.choice(calls)
+                self.add({"op": "g_call", "fn": fn, "variant": v, "dst": self.new("res", fn=fn)})
 
     TABLE = [
         ("c_tx_default", 4), ("c_tx_new", 3), ("c_witness_default", 2), ("c_witness_new", 1), ("c_scope_default", 4),
@@ -479,10 +515,12 @@ class Gen:
 
     def history(self, n):
         names = [a for a, _ in self.TABLE]
+        table = self.TABLE + ([("g_generic", 25)] if self.GENERIC else [])
+        names = [a for a, _ in table]
         while len(self.ops) < n:
             # a pool first, then mostly derivations, mutations and queries
             full = len(self.pool) >= 6
-            weights = [(b * 0.25 if (full and a.startswith("c_")) else b) for a, b in self.TABLE]
+            weights = [(b * 0.25 if (full and a.startswith("c_")) else b) for a, b in table]
             getattr(self, self.r.choices(names, weights)[0])()
         return self.ops
 
@@ -529,6 +567,14 @@ def directed():
             {"op": "witness_default", "dst": "w"}, {"op": "serialize", "obj": "w"},
             {"op": "native", "fn": "xonly", "key": 2, "msg": 1}, {"op": "native", "fn": "pubkey", "key": 2, "msg": 1},
             {"op": "serialize", "obj": "a"}]),
+        ("the caller keeps what the binding handed back; later binding calls must not change it", [
+            {"op": "native", "fn": "recoverable", "key": 1, "msg": 1, "dst": "n1"},
+            {"op": "native", "fn": "recoverable", "key": 3, "msg": 3, "dst": "n2"},
+            {"op": "native", "fn": "pubkey", "key": 1, "msg": 1, "dst": "n3"}, {"op": "native", "fn": "pubkey", "key": 2, "msg": 1, "dst": "n4"},
+            {"op": "native", "fn": "ecdsa", "key": 1, "msg": 1, "dst": "n5"}, {"op": "native", "fn": "ecdsa", "key": 2, "msg": 2, "dst": "n6"},
+            {"op": "native", "fn": "xonly", "key": 1, "msg": 1, "dst": "n7"}, {"op": "native", "fn": "xonly", "key": 2, "msg": 1, "dst": "n8"},
+            {"op": "native", "fn": "schnorr", "key": 1, "msg": 1, "dst": "n9"}, {"op": "native", "fn": "schnorr", "key": 2, "msg": 2, "dst": "n10"},
+            {"op": "serialize", "obj": "n1"}, {"op": "serialize", "obj": "n3"}, {"op": "serialize", "obj": "n7"}]),
         ("D29 sighash_taproot twice with other values (PSBTView)", [
             {"op": "psbt_build", "dst": "p", "seed": 1, "kinds": ["tr", "wpkh"]}, {"op": "view_of", "src": "p", "dst": "v"},
             {"op": "sighash_taproot", "obj": "v", "idx": 0, "flag": 0, "spks": [1, 1], "values": [1000, 2000]},
@@ -582,11 +628,23 @@ def lean_list(name):
     return out
 
 
-def parse_sites():
-    """(name, kind text, probe, evidence) of Generated/AliasFacts.lean"""
+def _records(defname):
     p = os.path.join(facts.GEN_DIR, "AliasFacts.lean")
     src = open(p).read()
-    return re.findall(r'\{ name := "([^"]*)", kind := ([^,]*), probe := \.(\w+),\s*evidence := "([^"]*)" \}', src)
+    m = re.search(r"def %s : [^\n]* := \[(.*?)\n\]" % defname, src, re.S)
+    if not m:
+        return []
+    return re.findall(r'\{ name := "([^"]*)", kind := ([^,]*), probe := \.(\w+),\s*evidence := "([^"]*)" \}', m.group(1))
+
+
+def parse_sites():
+    """(name, kind text, probe, evidence) of `sites` in Generated/AliasFacts.lean"""
+    return _records("sites")
+
+
+def parse_shared_sites():
+    """(name, kind text, probe, evidence) of `sharedSites` (module- and class-level state, harness/sharedstate.py)"""
+    return _records("sharedSites")
 
 
 def site_kind_token(sites, names, dflt="ng"):
@@ -643,6 +701,86 @@ def check_sites(c, witnesses):
     for n in contract:
         if n not in by_name:
             c.tally("contract-mutator-absent:" + n)
+
+
+def check_shared_sites(c):
+    """the shared-state sites (module- / class-level objects, flows, writes, `global`, memo shapes, cache decorators,
+    native aliases): Lean evaluates which are unsafe; a site whose probe reproduced the hazard on the real code is a
+    failing input (its witness is the probe's concrete history), any other unsafe site is an undischarged obligation"""
+    sites = parse_shared_sites()
+    by_name = {s[0]: s for s in sites}
+    c.extra["shared_sites"] = len(sites)
+    c.extra["shared_sites_by_kind"] = {}
+    for s in sites:
+        k = s[1].split()[0]
+        c.extra["shared_sites_by_kind"][k] = c.extra["shared_sites_by_kind"].get(k, 0) + 1
+    try:
+        ans = run_driver(["shared.unsafe", "shared.sites"])
+    except Exception as e:
+        c.broken.append(("driver", "shared.unsafe: %s" % e))
+        return []
+    if ans[1] != "ok %d" % len(sites):
+        c.broken.append(("facts", "the driver was built from other facts (%s) than Generated/AliasFacts.lean (%d shared sites)" % (ans[1], len(sites))))
+    toks = ans[0].split()[1:]
+    unsafe = [] if toks == ["-"] else [bytes.fromhex(t).decode() for t in toks]
+    for n in unsafe:
+        name, kind, probe, ev = by_name.get(n, (n, "?", "?", ""))
+        c.count(("shared-site", n), nontrivial=True)
+        # not yet a violation: the concrete HISTORY is what the directed / random histories below have to produce; a site
+        # no history reproduces ends as `no-failing-input-found` with the probe's witness in the broken list
+        c.broken.append(("facts", "shared-state site %s is %s / %s: %s" % (n, kind, probe, ev[:400])))
+    return unsafe
+
+
+def generic_targets(unsafe_names):
+    """targets (class + attribute, function + argument variant) of the UNSAFE shared-state sites, from the translator's
+    JSON of this run: what the generic operations `g_*` of the history language work on"""
+    try:
+        import aliasfacts
+        d = aliasfacts.LAST_SHARED or {"sites": []}
+    except Exception:
+        return []
+    out = []
+    for s in d["sites"]:
+        if s["name"] in unsafe_names and s.get("target"):
+            t = dict(s["target"])
+            t["site"] = s["name"]
+            t["kind"] = s["kind"]
+            out.append(t)
+    return out
+
+
+def directed_generic(targets):
+    """the concrete histories the unsafe shared-state sites predict"""
+    out = []
+    for t in targets:
+        k = t["kind"].split()[0]
+        if k == ".sharedIntoAttr" and t.get("cls"):
+            out.append(("%s: mutate through one instance, build another" % t["site"], [
+                {"op": "g_new", "cls": t["cls"], "dst": "a"}, {"op": "g_mutate", "obj": "a", "attr": t["attr"]},
+                {"op": "g_new", "cls": t["cls"], "dst": "b"}, {"op": "serialize", "obj": "b"}]))
+            out.append(("%s: two instances, mutate one" % t["site"], [
+                {"op": "g_new", "cls": t["cls"], "dst": "a"}, {"op": "g_new", "cls": t["cls"], "dst": "b"},
+                {"op": "g_mutate", "obj": "a", "attr": t["attr"]}]))
+        elif k in (".sharedIntoAttr", ".cacheDecorator", ".moduleMemo") and t.get("fn") and t.get("variant") is not None:
+            call = {"op": "g_call", "fn": t["fn"], "variant": t["variant"]}
+            out.append(("%s: the first caller edits what it got, the second caller calls again" % t["site"], [
+                dict(call, dst="x"), {"op": "g_touch", "obj": "x"}, dict(call, dst="y")]))
+            out.append(("%s: two callers, one edits" % t["site"], [
+                dict(call, dst="x"), dict(call, dst="y"), {"op": "g_touch", "obj": "x"}]))
+        elif k in (".sharedWrite", ".globalRebind") and t.get("fn") and t.get("variant") is not None:
+            w = {"op": "g_call", "fn": t["fn"], "variant": t["variant"]}
+            for (rp, rv) in t.get("readers") or []:
+                r = {"op": "g_call", "fn": rp, "variant": rv}
+                out.append(("%s: read, write, read" % t["site"], [dict(r), dict(w), dict(r)]))
+            out.append(("%s: called twice" % t["site"], [dict(w), dict(w)]))
+        elif k == ".memoOther" and t.get("fn") and t.get("variants"):
+            vs = t["variants"]
+            out.append(("%s: the same receiver asked twice with other arguments" % t["site"], [
+                {"op": "g_new", "cls": t["cls"], "dst": "r"},
+                {"op": "g_mcall", "obj": "r", "fn": t["fn"], "variant": vs[0]},
+                {"op": "g_mcall", "obj": "r", "fn": t["fn"], "variant": vs[-1]}]))
+    return out
 
 
 # ------------------------------------------------------------------------------------------------ model correspondence
@@ -869,6 +1007,98 @@ class AliasAbstraction:
         return line, "ok " + " ".join(expect), len(mops)
 
 
+class SharedAbstraction:
+    """the part of a history the model of Model/HeapShared.lean speaks about — constructions and the caller's container
+    mutations over Transaction (vin, vout), Witness (items) and the classes of the generic operations — as a
+    `shared.trace` request with the EXTRACTED field sources: a container attribute is the global cell of the object an
+    UNSAFE flow site names (`flow:<class>.<attr><-<object>`), otherwise a fresh container. Per operation the set of
+    existing objects whose picture changed, and for a construction whether the new object looks like the same
+    construction in a pristine process, must agree with the model."""
+    FIXED = {"tx": ("transaction.Transaction", ["vin", "vout"]), "wit": ("script.Witness", ["items"])}
+
+    def __init__(self, shared_sites, unsafe):
+        self.cells = {}      # object name -> cell id
+        self.src = {}        # (class short name, attr) -> field source token, for unsafe non-table flows
+        for (name, kind, probe, ev) in shared_sites:
+            m = re.match(r"flow:(.*)\.([A-Za-z_0-9]+)<-(.*)$", name)
+            if m and kind.strip() == ".sharedIntoAttr false" and name in unsafe:
+                cell = self.cells.setdefault(m.group(3), len(self.cells))
+                st = re.match(r"style: (\w+);", ev)
+                tok = {"default": "g", "or": "o", "always": "a"}.get(st.group(1) if st else "default", "g")
+                self.src[(m.group(1), m.group(2))] = "%s %d" % (tok, cell)
+
+    def attrs(self, cls_short, base):
+        extra = sorted(a for (c, a) in self.src if c == cls_short and a not in base)
+        return list(base) + extra
+
+    def build(self, ops, live, fresh):
+        makers, mops, expect = [], [], []
+        obj = {}             # slot -> (model index, class short, attrs)
+
+        def maker(cls_short, attrs):
+            toks = []
+            for a in attrs:
+                toks.append(self.src[(cls_short, a)] if (cls_short, a) in self.src else "f")
+            key = "%d %s" % (len(toks), " ".join(toks))
+            if key not in makers:
+                makers.append(key)
+            return makers.index(key)
+
+        def changed(l, target=None):
+            ch = {obj[c["slot"]][0] for c in l["changed"] if c["slot"] in obj}
+            if target in obj:
+                ch.add(obj[target][0])
+            return ".".join(map(str, sorted(ch))) or "-"
+
+        nested = ("script.Witness", "items") in self.src
+        for k, o in enumerate(ops):
+            l, n = live[k], o["op"]
+            cons = None
+            if nested and ((n == "tx_new" and o["vin"]) or n == "tx_append_vin"):
+                # every transaction input holds a Witness of its own: with a shared Witness.items the inputs are shared
+                # containers of the transaction as well, which the flat model of a transaction (vin, vout) does not have
+                return None
+            if n in ("tx_default", "tx_new"):
+                cons = self.FIXED["tx"] + ([None, None] if n == "tx_default" else [o["vin"], o["vout"]],)
+            elif n in ("witness_default", "witness_new"):
+                cons = self.FIXED["wit"] + ([None] if n == "witness_default" else [list(range(len(o["items"])))],)
+            elif n == "g_new":
+                cs = o["cls"][len("embit."):] if o["cls"].startswith("embit.") else o["cls"]
+                cons = (cs, [], [])
+            if cons is not None:
+                if l["status"] != "ok":
+                    return None
+                cs, base, args = cons
+                attrs = self.attrs(cs, base)
+                f = fresh.get(str(k))
+                if f is None:
+                    return None
+                obj[o["dst"]] = (len(obj), cs, attrs)
+                lits = " ".join("D" if a is None else ("L %d %s" % (len(a), " ".join(str(1 + x) for x in a)) if a else "L 0") for a in args)
+                mops.append("K %d %d %s" % (maker(cs, attrs), len(args), lits) if args else "K %d 0" % maker(cs, attrs))
+                pristine = (l["status"], l["target"]) == (f["status"], f["target"])
+                # the new object may hold a cell somebody already filled: then existing objects are unchanged, it is not pristine
+                expect.append("o%s/p%d/s0" % (changed(l), 1 if pristine else 0))
+                continue
+            if l["status"] != "ok":
+                continue
+            if n in ("tx_append_vin", "tx_append_vout") and o["obj"] in obj:
+                mops.append("M %d %d %d" % (obj[o["obj"]][0], 0 if n == "tx_append_vin" else 1, 1 + o["seed"]))
+                expect.append("o%s/p1/s0" % changed(l, o["obj"]))
+            elif n == "witness_append" and o["obj"] in obj:
+                mops.append("M %d 0 7" % obj[o["obj"]][0])
+                expect.append("o%s/p1/s0" % changed(l, o["obj"]))
+            elif n == "g_mutate" and o["obj"] in obj and o["attr"] in obj[o["obj"]][2]:
+                mops.append("M %d %d 1" % (obj[o["obj"]][0], obj[o["obj"]][2].index(o["attr"])))
+                expect.append("o%s/p1/s0" % changed(l, o["obj"]))
+            elif n in ("reparse", "psbt_tx") and o.get("dst") in obj:
+                return None      # the slot is redefined: out of the model's vocabulary
+        if not mops or not any(m.startswith("M") for m in mops):
+            return None
+        line = "shared.trace %d %s 0 %d %s" % (len(makers), " ".join(makers), len(mops), " ".join(mops))
+        return line, "ok " + " ".join(expect), len(mops)
+
+
 # ------------------------------------------------------------------------------------------------ the check
 
 def classifier_d31(rec):
@@ -904,10 +1134,11 @@ def examine(c, zyg, ops, kind, abstraction, shrink_budget=80):
         if f["check"] in reported:
             continue          # one report per kind and history
         reported.add(f["check"])
-        if shrunk.count(f["check"]) >= 2 or len(c.violations) >= 40:
+        tag = (f["check"], generic_rank(ops[:k + 1]))
+        if shrunk.count(tag) >= 2 or len(shrunk) >= 12:
             c.fail(describe(f, ops[k]), rec)     # counted; the shrunk ones come first in the report
             continue
-        shrunk.append(f["check"])
+        shrunk.append(tag)
         small, best = shrink(zyg, ops, f, budget=shrink_budget)
         rec = dict(best)
         rec.update({"op": "history", "operation": small[-1], "history": small, "kind": kind, "shrunk_from": len(ops[:k + 1])})
@@ -926,7 +1157,25 @@ def examine(c, zyg, ops, kind, abstraction, shrink_budget=80):
             c.tally("memo-trace-ops", n)
             c.tally("memo-trace-edits-in-place", line.count(" E ") // 2)
             c.expect(line, exp, {"history": ops, "kind": kind}, proven=False, op="memo.trace")
+        shared = getattr(abstraction, "shared", None)
+        b = shared.build(ops, ans["live"], ans["fresh"]) if shared is not None else None
+        if b is not None:
+            line, exp, n = b
+            c.tally("shared-trace-ops", n)
+            c.expect(line, exp, {"history": ops, "kind": kind}, proven=False, op="shared.trace")
     return fs
+
+
+def generic_rank(ops):
+    """0: a history over the fixed operations (the library's documented classes); 1: with generic operations on public
+    names; 2: with generic operations on private names (reported last: a caller would not call `_helper` itself)"""
+    r = 0
+    for o in ops:
+        if o["op"].startswith("g_"):
+            path = o.get("fn") or o.get("cls") or ""
+            private = any(p.startswith("_") for p in path.split(".")) or str(o.get("attr", "")).startswith("_")
+            r = max(r, 2 if private else 1)
+    return r
 
 
 def describe(f, o):
@@ -996,15 +1245,21 @@ def run(tier, seed):
         c.extra["histories_only"] = True
     else:
         check_sites(c, witnesses)
+    unsafe_shared = [] if histories_only or not c.driver_ok else check_shared_sites(c)
+    targets = generic_targets(set(unsafe_shared))
+    Gen.GENERIC = targets
+    if targets:
+        c.extra["generic_targets"] = [t["site"] for t in targets]
     abstraction = Abstraction(parse_sites()) if c.driver_ok else None
     if abstraction is not None:
         mk = parse_memo_keys()
         abstraction.alias = AliasAbstraction(mk)
+        abstraction.shared = SharedAbstraction(parse_shared_sites(), set(unsafe_shared))
         c.expect("memo.keys", "ok " + (" ".join("%s:%s" % (n.encode().hex(), "c" if b else "a") for n, b in mk.items()) or "-"),
                  {"what": "the driver was built from this run's key kinds"}, proven=False)
     zyg = Zygote()
     try:
-        for name, ops in directed():
+        for name, ops in directed_generic(targets) + directed():
             examine(c, zyg, ops, "directed:" + name, abstraction)
         c.flush()
         p = os.path.join(VERIF, "corpus", "C19.json")
@@ -1021,8 +1276,8 @@ def run(tier, seed):
         c.extra["fork_server_requests"] = zyg.calls
         c.extra.pop("_shrunk", None)
         prio = {"other-changed": 0, "fresh-differs": 0, "arg-changed": 0, "defaults-changed": 1}
-        c.violations.sort(key=lambda v: (0 if "shrunk_from" in v[1] else 1, prio.get(v[1].get("check"), 2),
-                                         len(json.dumps(v[1].get("history", "")))))
+        c.violations.sort(key=lambda v: (0 if "shrunk_from" in v[1] else 1, generic_rank(v[1].get("history") or []),
+                                         prio.get(v[1].get("check"), 2), len(json.dumps(v[1].get("history", "")))))
         rc = c.finish(search=lambda cc: search(cc, zyg, abstraction))
     finally:
         zyg.close()
@@ -1041,7 +1296,7 @@ def replay(path):
         print("site   :", r.get("site"), r.get("kind"), r.get("probe"))
         print("evidence:", r.get("evidence"))
         facts.regenerate("alias")
-        for s in parse_sites():
+        for s in parse_sites() + parse_shared_sites():
             if s[0] == r.get("site"):
                 print("now    :", s[1], s[2], s[3][:400])
         return 0
@@ -1072,4 +1327,14 @@ def replay(path):
         print("memo request :", b[0][:600])
         print("impl pattern :", b[1])
         print("model        :", run_driver([b[0]])[0])
+    try:
+        toks = run_driver(["shared.unsafe"])[0].split()[1:]
+        unsafe = set() if toks == ["-"] else {bytes.fromhex(t).decode() for t in toks}
+        b = SharedAbstraction(parse_shared_sites(), unsafe).build(ops, ans["live"], ans["fresh"])
+    except Exception:
+        b = None
+    if b:
+        print("shared request:", b[0][:600])
+        print("impl pattern  :", b[1])
+        print("model         :", run_driver([b[0]])[0])
     return 0
